@@ -30,7 +30,7 @@ def main():
         "annotation": '";" [^ \'/\']*',
         "reading": "n:kana()+ { n.concat() }",
         "okuri": "n:alphabet()* { if n.is_empty() { None } else { Some(n.concat()) } }",
-        "kanji": 'n:$([^ \' \' | \'/\' | \';\']+) annotation()? "/" { n.to_string() }',
+        "kanji": 'n:$([^ \' \' | \'\\t\' | \'/\' | \';\']+) annotation()? "/" { n.to_string() }',
         "entry": 'r:reading() o:okuri() space()+ "/" s:kanji()+ { SkkEntry {reading: r, okuri: o, words: s} }',
         "root": "comment() {None} / n:entry() { Some(n) }",
         "comment": '";" any()* "\\n"',
